@@ -91,6 +91,10 @@ def gen_case(rng, tier, g):
             t = gen_table(rng, maxrows, nfields=nf,
                           ragged=False if rec.rect else None)
         tables.append(t)
+    if name == 'fromdicts-gen' and rng.random() < 0.35:
+        # objects without keys at the start: the header sample is empty
+        for i in range(1, min(len(tables[0]), rng.randint(2, 4))):
+            tables[0][i] = []
     nrows = len(tables[0]) - 1
     nviews = 2 if rec.multi else 1
     if name in ('sort-of-sort',):
